@@ -1527,3 +1527,328 @@ def replay_c05(ctx, obj, S):
     changed = (not _ack(S, o)) and s.snap() != before
     s.close()
     return changed or obj.get('klass', '').endswith(('rendering', 'verbatim'))
+
+
+# ---------------------------------------------------------------------------
+# totalpower data packets: System._send_packet / _get_status(binary) driven directly
+# (fake data socket, constant virtual clock, recorded randint, recording Timer; no thread, no sleep)
+
+class TpDataSocket:
+    def __init__(self):
+        self.sent = []
+        self.last = None
+        self.fail = False
+        self.closed = 0
+
+    def sendall(self, data):
+        self.last = bytes(data)
+        if self.fail:
+            raise OSError('not connected')
+        self.sent.append(bytes(data))
+
+    def close(self):
+        self.closed += 1
+
+
+class _Flag:
+    def __init__(self, v):
+        self.value = v
+
+
+TPP_SP = [1000, 1000, 500, 250, 200, 125, 100, 100, 50, 40, 25, 20, 333, 999, 501, 7, 3, 64, 1001, 2000, 30000]
+TPP_SP_RARE = [0, -5, -1000, 1, 2, 10 ** 6, 2 ** 40]
+TPP_CALPER = [0, 0, 1, 1, 2, 3, 5, 9, 10, 50, -1]
+
+
+class TpPacketRun:
+    """one real System; a history of _send_packet invocations with everything nondeterministic recorded"""
+
+    def __init__(self, rng, script=None):
+        import simulators.totalpower as tp
+        self.tp = tp
+        self.rng = rng
+        self.clock = 0.0
+        self.draws = []
+        self.wild = None
+        self.script = script
+        self.steps = []
+
+        def randint(a, b):
+            if (a, b) != (200, 2000):
+                raise AssertionError('unexpected randint range %r' % ((a, b),))
+            r = self.wild() if self.wild else rng.randint(a, b)
+            self.draws.append(r)
+            return r
+
+        self.sockmod = types.SimpleNamespace(socket=TpDataSocket, error=OSError)
+        self.patch = dict(Timer=FakeTimer, socket=self.sockmod,
+                          time=types.SimpleNamespace(time=lambda: self.clock, sleep=lambda dt: None),
+                          randint=randint)
+        if script is None:
+            self.channels = rng.choice([1, 2, 4, 4, 14])
+            near = rng.random() < 0.5
+            counter = 65536 - rng.randrange(1, 40) if near else rng.randrange(0, 65536)
+            calper = rng.choice(TPP_CALPER)
+            caloff = rng.randrange(0, calper + 1) if calper > 0 else 0
+            toggle = rng.choice([0, 1])
+            self.init = [counter, calper, caloff, toggle, 0]
+        else:
+            self.channels = script['channels']
+            self.init = list(script['init'])
+        with patched(tp, **self.patch):
+            s = self.system = tp.System(channels=self.channels)
+        (s.sample_counter, s.calOnPeriod, s.cal_off_samples, s.toggle, s.zero) = self.init
+        s.data_configured = True
+        self.sock = s.data_socket = TpDataSocket()
+        self.cur_sp = rng.choice(TPP_SP) if script is None else 1000
+
+    def gen_step(self):
+        rng = self.rng
+        if rng.random() < 0.3:
+            self.cur_sp = rng.choice(TPP_SP)
+        sp = self.cur_sp
+        r = rng.random()
+        if r < 0.06:
+            sp = rng.choice(TPP_SP_RARE)
+        if 0 < sp < 20 and self.channels > 2:
+            sp = 20 * sp                       # keeps the packet literal small
+        t = 1.7e9 + rng.randrange(0, 10 ** 9) / 1024.0
+        r = rng.random()
+        if r < 0.04:
+            t = 2.0 ** 32 - rng.choice([0.25, 0.5, 1.0, 1.5, 0.001])     # the 4-byte epoch field overflows (year 2106)
+        elif r < 0.06:
+            t = rng.choice([0.0, 0.5, -0.5, -2.0, 1.0])
+        wild = None
+        if rng.random() < 0.05 and sp > 0:
+            wild = rng.choice(['big', 'edge', 'neg'])
+        r = rng.random()
+        fail, stop, pause = r < 0.08, 0.08 <= r < 0.16, 0.16 <= r < 0.6
+        calon = 1 if rng.random() < 0.1 else None
+        return dict(sp=sp, calon=calon, t=t, wild=wild, fail=fail, stop=stop, pause=pause)
+
+    def step(self, st):
+        s = self.system
+        rng = self.rng
+        sp = st['sp']
+        s.sample_period = sp
+        if st.get('calon') is not None:
+            s.calOn = st['calon']
+        calon_before = s.calOn
+        self.clock = st['t']
+        self.draws = []
+        w = st.get('wild')
+        before = [s.sample_counter, s.cal_off_samples, s.calOn, s.toggle]
+        if st.get('replay_draws') is not None:
+            feed = list(st['replay_draws'])
+            self.wild = lambda: feed.pop(0) if feed else 1000
+        elif w == 'big':
+            self.wild = lambda: rng.choice([2 ** 32 // sp + 1, 2 ** 32, 2000])
+        elif w == 'edge':
+            self.wild = lambda: rng.choice([(2 ** 32 - 1) // sp, (2 ** 32 - 1) // sp + 1, 0, 1])
+        elif w == 'neg':
+            self.wild = lambda: rng.choice([-1, 5, 300])
+        else:
+            self.wild = None
+        self.sock.fail = st['fail']
+        stop, pause = _Flag(st['stop']), _Flag(st['pause'])
+        s.stop, s.pause = stop, pause          # _stop(None) on the socket-error path sets self.stop
+        self.sock.last = None
+        ntimers = len(FakeTimer.created)
+        raised = None
+        with patched(self.tp, **self.patch):
+            try:
+                s._send_packet(stop, pause)
+            except ZeroDivisionError:
+                raised = 0
+            except OverflowError:
+                raised = 2
+            except ValueError as ex:
+                raised = 1 if 'out of range' in str(ex) else 2
+        del FakeTimer.created[ntimers + 8:]     # the class-level list must not grow without bound
+        packet = None
+        if raised is None:
+            packet = self.sock.last         # what was handed to sendall (also when the fake then raised)
+            if bool(stop.value):
+                act = 2
+            elif st['pause']:
+                act = 1
+            else:
+                act = 0
+        rec = dict(st, calon_before=calon_before, before=before, calper=s.calOnPeriod, zero=s.zero, draws=list(self.draws), raised=raised, packet=packet,
+                   stop_after=bool(stop.value) if raised is None else None,
+                   act=act if raised is None else None,
+                   restarted=(len(FakeTimer.created) > ntimers and FakeTimer.created[-1].function == s._send_packet
+                              and FakeTimer.created[-1].started) if raised is None else None,
+                   after=[s.sample_counter, s.cal_off_samples, s.calOn, s.toggle], channels=self.channels)
+        if self.sock.closed:
+            # the stop path closed the data socket; `X` would create a new one
+            self.sock = s.data_socket = TpDataSocket()
+        self.steps.append(rec)
+        return rec
+
+    def run(self, n):
+        for _ in range(n):
+            self.step(self.gen_step())
+        return self
+
+    def case_term(self):
+        """Coq term; the packet of a failed sendall is not observable on the socket: such steps carry the packet
+        the implementation built (captured by the fake before raising)"""
+        steps = []
+        for r in self.steps:
+            if r['raised'] is None:
+                pk = r['packet'] if r['packet'] is not None else b'\xff'   # no sendall at all: never equal to a model packet
+                obs = 'OSent %s %s %s' % (zlist(list(pk)), blit(r['stop_after']), zlit(r['act']))
+            else:
+                obs = 'ORaised %s' % zlit(r['raised'])
+            steps.append('PStep %s %s %s %s %s %s %s (%s) %s'
+                         % (zlit(r['sp']), zlit(r['calon_before']), zlit(f64_bits(r['t'])), zlist(r['draws']),
+                            blit(r['fail']), blit(r['stop']), blit(r['pause']), obs, zlist(r['after'])))
+        return 'PCase %s %s %s' % (natlit(self.channels), zlist(self.init), coq_list(steps))
+
+
+def tpp_corr(ctx):
+    rng = ctx.rng
+    cases = []
+    n = ctx.n(28, 400)
+    for _ in range(n):
+        run = TpPacketRun(rng).run(rng.randrange(2, 6))
+        cases.append(run.case_term())
+        for r in run.steps:
+            ctx.count('totalpower:packet:' + ('raised-%s' % r['raised'] if r['raised'] is not None
+                                              else 'act-%s%s' % (r['act'], '-sendfail' if r['fail'] else '')))
+            if r['packet']:
+                ctx.nontriv(('totalpower', 'packet', r['sp'], run.channels, r['after'][0], len(r['packet'])))
+    for c in cases[:1]:
+        ctx.sample(c[:600])
+    return ctx.run_cases('totalpower_packet', 'From DS Require Import Model.SmcTpPacket Corr.SmcTpPacketCorr.',
+                         'tpp_case', 'ok', cases, show='show', shard=4)
+
+
+def tpp_expected_cal(per, k, con, i):
+    """C04_totalpower_packet_cal_mark / _cal_never transcribed"""
+    pending = (i == 0 and con == 1)
+    if per > 0 and 0 <= k <= per:
+        return ((k + i) % (per + 1) == per) or pending
+    if per <= 0 and k >= 0:
+        return pending
+    return None                      # outside both theorems (cal_off_samples > calOnPeriod): not promised
+
+
+def tpp_check(r):
+    """the packet theorems transcribed for one invocation of the real _send_packet; returns [(class, text)]"""
+    bad = []
+    sp, ch = r['sp'], r['channels']
+    c0, k0, con0, t0 = r['before']
+    after = r['after']
+    if not 0 <= after[0] <= 65535:
+        bad.append(('counter_range', 'sample_counter %r after the call' % after[0]))
+    if sp == 0:
+        if r['raised'] != 0:
+            bad.append(('zero_period', 'sample_period 0 did not raise ZeroDivisionError'))
+        return bad
+    if not 1 <= sp <= 1000:
+        if r['raised'] is None and r['packet'] not in (b'', None) and sp > 1000:
+            bad.append(('records', 'sample_period %d > 1000 produced a non-empty packet' % sp))
+        return bad
+    n = 1000 // sp
+    t = r['t']
+    promised = (1.0 <= t < 2.0 ** 32 - 1 and all(0 <= d * sp < 2 ** 32 for d in r['draws'])
+                and 0 <= c0 <= 65535 and con0 in (0, 1) and t0 in (0, 1) and r['zero'] in (0, 1))
+    if r['raised'] is not None:
+        if promised:
+            bad.append(('refused', 'a packet inside the guards raised (kind %r)' % r['raised']))
+        elif after[3] != t0:
+            bad.append(('toggle_on_refusal', 'toggle changed although the invocation raised'))
+        return bad
+    pk = r['packet']
+    if pk is None:
+        bad.append(('not_sent', 'no sendall although the invocation returned'))
+        return bad
+    size = 8 + 4 * ch
+    if len(pk) != n * size:
+        bad.append(('length', 'packet of %d bytes, expected %d records of %d' % (len(pk), n, size)))
+        return bad
+    if len(r['draws']) != n * ch:
+        bad.append(('draws', '%d draws for %d samples' % (len(r['draws']), n * ch)))
+        return bad
+    prev_epoch = None
+    for i in range(n):
+        rec = pk[i * size:(i + 1) * size]
+        epoch, counter, status = struct.unpack('<IHH', rec[:8])
+        smp = struct.unpack('<%dI' % ch, rec[8:])
+        if not (int(t) - 1 <= epoch <= int(t)) or (prev_epoch is not None and epoch < prev_epoch):
+            bad.append(('epoch', 'record %d epoch %d for clock %r' % (i, epoch, t)))
+        prev_epoch = epoch
+        if counter != (c0 + i) % 65536:
+            bad.append(('counter', 'record %d counter %d, expected %d' % (i, counter, (c0 + i) % 65536)))
+        if (status & 7) != 7 or ((status >> 6) & 3) != 1 or (status >> 8) != (0xA0 if t0 else 0x90) \
+                or ((status >> 5) & 1) != r['zero']:
+            bad.append(('status', 'record %d status word %#06x (toggle %d)' % (i, status, t0)))
+        if ((status >> 3) & 1) != t0:
+            bad.append(('toggle_bit', 'record %d toggle bit %d, state toggle %d' % (i, (status >> 3) & 1, t0)))
+        exp = tpp_expected_cal(r['calper'], k0, con0, i)
+        if exp is not None and bool((status >> 4) & 1) != exp:
+            bad.append(('cal_mark', 'record %d cal mark %d, expected %d (calOnPeriod %d, cal_off_samples %d)'
+                        % (i, (status >> 4) & 1, exp, r['calper'], k0)))
+        want = tuple(d * sp for d in r['draws'][i * ch:(i + 1) * ch])
+        if smp != want:
+            bad.append(('samples', 'record %d samples %r, expected %r' % (i, smp, want)))
+        if bad:
+            break
+    if after[3] != (0 if t0 else 1):
+        bad.append(('toggle_flip', 'toggle %r -> %r%s' % (t0, after[3], ' (sendall failed)' if r['fail'] else '')))
+    stopped = r['stop'] or r['fail']
+    if r['stop_after'] != stopped or r['act'] != (2 if stopped else 1 if r['pause'] else 0):
+        bad.append(('continuation', 'stop/pause/fail %r -> action %r' % ((r['stop'], r['pause'], r['fail']), r['act'])))
+    if r['act'] == 0 and not r['restarted']:
+        bad.append(('continuation', 'timer not restarted'))
+    if after[0] != (0 if stopped else (c0 + n) % 65536):
+        bad.append(('counter_after', 'sample_counter %d after %d records from %d%s'
+                    % (after[0], n, c0, ' (stopped)' if stopped else '')))
+    if n > 0 and after[2] != 0:
+        bad.append(('calon_after', 'calOn %r after a packet with records' % after[2]))
+    return bad
+
+
+def tpp_witness(run):
+    return dict(channels=run.channels, init=run.init,
+                steps=[dict(sp=r['sp'], calon=r['calon'], t=r['t'], fail=r['fail'], stop=r['stop'], pause=r['pause'],
+                            replay_draws=r['draws']) for r in run.steps])
+
+
+def tpp_run_script(rng, w):
+    run = TpPacketRun(rng, script=w)
+    out = []
+    for st in w['steps']:
+        r = run.step(dict(st))
+        out += tpp_check(r)
+    return run, out
+
+
+def tpp_oracle(ctx):
+    rng = ctx.rng
+    n = ctx.n(60, 1500)
+    for _ in range(n):
+        run = TpPacketRun(rng)
+        prev = None
+        for _k in range(rng.randrange(2, 7)):
+            r = run.step(run.gen_step())
+            ctx.evaluations += 1
+            bad = tpp_check(r)
+            if (not bad and prev is not None and prev['raised'] is None and r['raised'] is None
+                    and prev['packet'] and r['packet']):
+                tb = lambda x: (struct.unpack('<H', x['packet'][6:8])[0] >> 3) & 1
+                if tb(prev) == tb(r):
+                    bad.append(('toggle_alternation', 'two consecutive packets carry the same toggle bit'))
+            if bad:
+                klass, what = bad[0]
+                ctx.fail('totalpower_packet_' + klass, what, tpp_witness(run))
+                break
+            prev = r
+
+
+def tpp_replay(ctx, obj):
+    import random
+    _, bad = tpp_run_script(random.Random(0), obj['witness'])
+    return bool(bad)
